@@ -101,6 +101,11 @@ impl World {
     }
 }
 
+/// node id of a node of the case (the same scheme as in run_with)
+fn nid_of_case(case_no: u64, s: &str) -> NodeId {
+    NodeId::new(1, format!("c33-{}-{}-{}", std::process::id(), case_no, s))
+}
+
 fn object_attributes(f: &mut Filler) -> ExtensionObject {
     let m = AttributesMask::DISPLAY_NAME | AttributesMask::DESCRIPTION | AttributesMask::WRITE_MASK | AttributesMask::USER_WRITE_MASK | AttributesMask::EVENT_NOTIFIER;
     let mut a = ObjectAttributes { specified_attributes: if f.below(4) == 0 { f.u32() } else { m.bits() }, display_name: LocalizedText::from("o"), description: LocalizedText::new("", "d"), write_mask: f.u32(), user_write_mask: 0, event_notifier: f.u8() };
@@ -397,7 +402,14 @@ fn build(kind: u8, steer: u8, f: &mut Filler, w: &mut World, h: RequestHeader) -
         8 => {
             let mut r = generic!(fill_WriteRequest);
             if !raw {
-                r.nodes_to_write = Some((0..1 + f.below(3)).map(|_| WriteValue { node_id: w.pool(f), attribute_id: if f.below(3) == 0 { f.below(32) as u32 } else { 13 }, index_range: if f.bool() { UAString::null() } else { UAString::from(["0", "1:2", "0:100", "3", "x", ""][f.below(6)]) }, value: if f.bool() { DataValue::value_only(f.variant(2)) } else { f.data_value(2) } }).collect());
+                let mut writes: Vec<WriteValue> = (0..1 + f.below(3)).map(|_| WriteValue { node_id: w.pool(f), attribute_id: if f.below(3) == 0 { f.below(32) as u32 } else { 13 }, index_range: if f.bool() { UAString::null() } else { UAString::from(["0", "1:2", "0:100", "3", "x", ""][f.below(6)]) }, value: if f.bool() { DataValue::value_only(f.variant(2)) } else { f.data_value(2) } }).collect();
+                // a range write of the right element type on the array variable of the case: inside, across and beyond its end
+                if f.chance(90) {
+                    let n = 1 + f.below(7);
+                    let value = Variant::from((0..n as i32).collect::<Vec<i32>>());
+                    writes.push(WriteValue { node_id: nid_of_case(w.case_no, "arr"), attribute_id: 13, index_range: UAString::from(["1:2", "2:9", "0:3", "3:3", "3:4", "5:6", "1", "0:1,0:1"][f.below(8)]), value: DataValue::value_only(value) });
+                }
+                r.nodes_to_write = Some(writes);
             }
             r.into()
         }
@@ -550,6 +562,8 @@ pub fn run_with(ctx: &Ctx, c: &Case, modify: bool) -> PResult {
         ObjectBuilder::new(&w.nodes[1], "obj", "obj").organized_by(w.nodes[0].clone()).insert(&mut a);
         VariableBuilder::new(&w.nodes[2], "int", "int").data_type(DataTypeId::Int32).value(1i32).writable().component_of(w.nodes[1].clone()).insert(&mut a);
         VariableBuilder::new(&w.nodes[3], "str", "str").data_type(DataTypeId::String).value("a€語𝄞z").writable().component_of(w.nodes[1].clone()).insert(&mut a);
+        // an array variable (not in the pool: it is addressed by the steered range writes and removed with the other own nodes)
+        VariableBuilder::new(&nid("arr"), "arr", "arr").data_type(DataTypeId::Int32).value_rank(1).value(vec![10i32, 11, 12, 13]).writable().component_of(w.nodes[1].clone()).insert(&mut a);
     }
     // a subscription with a data item (queue size 5) and an event item exists from the start, so that the monitored item
     // and subscription services meet real ids
@@ -696,7 +710,8 @@ pub fn run_with(ctx: &Ctx, c: &Case, modify: bool) -> PResult {
     let damaged = {
         let a = server.address_space();
         let mut a = a.write();
-        for n in w.nodes.iter().chain(w.added.iter()) {
+        let arr = nid_of_case(w.case_no, "arr");
+        for n in w.nodes.iter().chain(w.added.iter()).chain(std::iter::once(&arr)) {
             if n.namespace == 1 && matches!(&n.identifier, Identifier::String(s) if s.as_ref().starts_with("c33-")) || matches!(n.identifier, Identifier::Numeric(_)) && n.namespace == 1 {
                 a.delete(n, true);
             }
